@@ -12,13 +12,15 @@ namespace Dds
 
 /-- what the analysis keeps of a function call (`FunctionInteractions`) -/
 inductive FIS where
-  | mk (name : String) (retSig : Sg) (storePath : Option String) (subs : List FIS) (loads : List String)
+  /-- `loads`: the paths loaded by the body (`indirect_deps`), each with the signature it resolved to (the signature is
+  not a field of the code's `FunctionInteractions`: it is what `_build_return_sig` looked up for the `dep_` entries) -/
+  | mk (name : String) (retSig : Sg) (storePath : Option String) (subs : List FIS) (loads : List (String × Sg))
 
 def FIS.name : FIS → String | .mk n _ _ _ _ => n
 def FIS.retSig : FIS → Sg | .mk _ s _ _ _ => s
 def FIS.storePath : FIS → Option String | .mk _ _ p _ _ => p
 def FIS.subs : FIS → List FIS | .mk _ _ _ s _ => s
-def FIS.loads : FIS → List String | .mk _ _ _ _ l => l
+def FIS.loads : FIS → List (String × Sg) | .mk _ _ _ _ l => l
 def FIS.withPath (f : FIS) (p : String) : FIS := .mk f.name f.retSig (some p) f.subs f.loads
 
 abbrev Refs := List (String × Sg)
@@ -134,7 +136,7 @@ def analyse (m : Nat) (W : World) : Nat → Analyse
     match retO with
     | none => .error .assertion
     | some ret =>
-      let fis := FIS.mk fn.name ret fn.storePath st.inters loads
+      let fis := FIS.mk fn.name ret fn.storePath st.inters deps
       let refs' := match fn.storePath with
         | some p => aset st.refs p ret
         | none => st.refs
